@@ -15,7 +15,7 @@ func init() {
 		Run:   runC15,
 		Modes: []string{"deadlock"},
 		Meta: propMeta{
-			Explanation: "Static clauses of runtime/event, runtime/promise and runtime/valuenotifier on all CFG paths: (1) the generated Trigger family (Event, Event1..N) agrees with one template and with the property's rows: event-level count check returns, the per-hook check unhooks that hook and continues, both pre-trigger functions and the hook's trigger receive all arguments in order, pooled hooks are submitted and others called inline, the iteration never stops early, LinkTo links to the own Trigger; (2) trigger counting decides on the result of one atomic Add (no separate Load) and only when a limit is set; (3) linkTo unhooks the previous link before hooking the new target, under the link mutex; hook ids come from an atomic counter and Unhook deletes by that id; (4) promise events: Trigger swaps the callback map for nil (and stores the value) under the mutex and calls the snapshot outside it; OnTrigger registers under the mutex or calls inline when already triggered; unsubscribe deletes by its own unique id; sibling agreement Event/Event1; (5) value notifier: listeners and counts under the mutex; close(channel) only together with removing the entry in the same exclusive section (no double close); deregistration acts only on the entry the listener was registered with (identity guard). Also: OrderedMap.Delete leaves the removed element's own links intact (rule shared with C11), which Trigger's walk over the hook map relies on while hooks unhook.",
+			Explanation: "Static clauses of runtime/event, runtime/promise and runtime/valuenotifier on all CFG paths: (1) the generated Trigger family (Event, Event1..N) agrees with one template and with the property's rows: event-level count check returns, the per-hook check unhooks that hook and continues, both pre-trigger functions and the hook's trigger receive all arguments in order, pooled hooks are submitted and others called inline, the iteration never stops early, LinkTo links to the own Trigger; (2) trigger counting decides on the result of one atomic Add (no separate Load) and only when a limit is set; (3) linkTo unhooks the previous link before hooking the new target, under the link mutex; hook ids come from an atomic counter and Unhook deletes by that id; (4) promise events: Trigger swaps the callback map for nil (and stores the value) under the mutex and calls the snapshot outside it; OnTrigger registers under the mutex or calls inline when already triggered; unsubscribe deletes by its own unique id; sibling agreement Event/Event1; (5) value notifier: listeners and counts under the mutex; close(channel) only together with removing the entry in the same exclusive section (no double close); deregistration acts only on the entry the listener was registered with (identity guard) and never closes the entry's channel (closing is the success signal of Wait; the deregistration operation is found by role: the function that decrements an entry's count); a function that Trigger hands to sync.Once.Do is analysed as part of Trigger, and callbacks invoked inside it are reported. Also: OrderedMap.Delete leaves the removed element's own links intact (rule shared with C11), which Trigger's walk over the hook map relies on while hooks unhook.",
 			NotDecided:  "exactly-once delivery over interleavings; timing of pooled execution",
 			Assumptions: []string{"OrderedMap/ShrinkingMap behave per C11", "sync/atomic semantics"},
 		},
